@@ -132,7 +132,18 @@ func GenCase(r *rand.Rand, seed int64, kind string) Case {
 		cs.PauseMs = 25
 		cs.Out.FailPlan = "none"
 		cs.Out.FlushMs = 20
-		switch r.Intn(4) {
+		switch r.Intn(5) {
+		case 4:
+			// the next line of a run arrives exactly when the stream time-out is due:
+			// put() holds the stream lock across a streamer heartbeat tick, so the
+			// heartbeat's tryUnblock and the woken processor compete for the stream
+			cs.Chain = []ActionSpec{join}
+			cs.Pattern = []string{"S", "P", "C", "N", "S", "C", "P", "C", "N"}
+			cs.PauseMs = 320
+			cs.PerSource = 10 + r.Intn(8)
+			cs.Sources = 1 + r.Intn(3)
+			cs.Readers = cs.Sources
+			cs.HookSleeps = map[string][2]int{"stream.put.beforeSignal": {230000, 45}}
 		case 0:
 			// an earlier action discards an event of the sequence while join
 			// holds one and the stream is momentarily empty
